@@ -107,7 +107,7 @@ def audit_axioms(modules: Dict[str, List[str]], tag: str) -> Tuple[Dict[str, Lis
 
 # ---------------------------------------------------------------- driver
 CORE_DRIVER_REGIONS = ["CoreKernels", "CudaKernels", "Attrs", "Utils"]
-NO_DRIVER_OPS = {"KernelHeap", "Ctor", "ResultPurity"}     # regions whose generated code is only reasoned about, never executed by the driver
+NO_DRIVER_OPS = {"KernelHeap", "Ctor", "ResultPurity", "GlobalState"}     # regions whose generated code is only reasoned about, never executed by the driver
 GOOD_DRIVER = os.path.join(LEAN_DIR, ".lake", "build", "bin", "skdriver.good")
 
 
